@@ -18,6 +18,30 @@ def parent_map(root):
     return pm
 
 
+def first_rest(f):
+    """[(first name, rest name or None, LIST expr)] for every
+    `first, *rest = LIST` of f, as the rules see it after normalisation:
+    `first = LIST[0]` and `rest = list(LIST[1:])` (also when written so)."""
+    firsts, rests = [], {}
+    for st in walk_local(f.node, include_root=False):
+        if not (isinstance(st, ast.Assign) and len(st.targets) == 1 and
+                isinstance(st.targets[0], ast.Name)):
+            continue
+        v = st.value
+        if isinstance(v, ast.Subscript) and \
+                isinstance(v.slice, ast.Constant) and v.slice.value == 0:
+            firsts.append((st.targets[0].id, v.value))
+        if isinstance(v, ast.Call) and isinstance(v.func, ast.Name) and \
+                v.func.id in ('list', 'tuple') and len(v.args) == 1:
+            v = v.args[0]
+        if isinstance(v, ast.Subscript) and isinstance(v.slice, ast.Slice) \
+                and v.slice.upper is None and v.slice.step is None and \
+                isinstance(v.slice.lower, ast.Constant) and \
+                v.slice.lower.value == 1:
+            rests[src(v.value)] = st.targets[0].id
+    return [(name, rests.get(src(lst)), lst) for name, lst in firsts]
+
+
 def stores_to(f, name):
     """Assignment statements in f (own body) that bind `name`: returns list
     of (stmt, value_expr or None)."""
@@ -926,6 +950,12 @@ def _canon_key(f, key):
     return out
 
 
+_COMPLEMENT = {ast.Eq: ast.NotEq, ast.NotEq: ast.Eq, ast.Is: ast.IsNot,
+               ast.IsNot: ast.Is, ast.In: ast.NotIn, ast.NotIn: ast.In,
+               ast.Lt: ast.GtE, ast.GtE: ast.Lt, ast.Gt: ast.LtE,
+               ast.LtE: ast.Gt}
+
+
 def eval_cond(f, e, env):
     """Value of the condition e under env, or UNKNOWN.  env maps source
     texts to Python values; both the keys and e are brought to the canonical
@@ -947,9 +977,21 @@ def eval_cond(f, e, env):
             if t[1] in cenv:
                 return bool(cenv[t[1]])
             try:
-                r = eval_atom(_parse_expr(t[1]), cenv)
+                a = _parse_expr(t[1])
             except SyntaxError:
                 return UNKNOWN
+            r = eval_atom(a, cenv)
+            if r is UNKNOWN and isinstance(a, ast.Compare) and \
+                    len(a.ops) == 1 and type(a.ops[0]) in _COMPLEMENT:
+                # `a == b` when the environment speaks of `a != b`
+                flipped = ast.Compare(left=a.left, ops=[
+                    _COMPLEMENT[type(a.ops[0])]()], comparators=a.comparators)
+                k = ' '.join(src(flipped).split())
+                if k in cenv:
+                    return not bool(cenv[k])
+                k2 = _canon_key(f, k)
+                if k2 in cenv:
+                    return not bool(cenv[k2])
             return r if r is UNKNOWN else bool(r)
         if t[0] == 'not':
             r = ev(t[1])
